@@ -1,0 +1,30 @@
+//go:build verif
+
+package database
+
+import "github.com/Vedant9500/WTF/internal/embedding"
+
+// Read-only accessors and one setter used by the external verification harness.
+// Compiled only with the build tag "verif"; nothing in the normal build refers to them.
+
+// VerifBM25FParams returns the BM25F parameters of the index in force
+// (fields in the order command, description, keywords, tags).
+func VerifBM25FParams(db *Database) (k1 float64, w, b [4]float64, minIDF float64) {
+	if db.uIndex == nil || db.uIndex.N != len(db.Commands) {
+		db.BuildUniversalIndex()
+	}
+	p := db.uIndex.params
+	return p.k1,
+		[4]float64{p.w.cmd, p.w.desc, p.w.keys, p.w.tags},
+		[4]float64{p.b.cmd, p.b.desc, p.b.keys, p.b.tags},
+		p.minIDF
+}
+
+// VerifSetEmbeddingIndex attaches an in-memory embedding index to db (nil detaches it).
+func VerifSetEmbeddingIndex(db *Database, idx *embedding.Index) { db.embeddingIndex = idx }
+
+// VerifIsCrossPlatformTool exposes the cross-platform tool rule.
+func VerifIsCrossPlatformTool(command string) bool { return isCrossPlatformTool(command) }
+
+// VerifHostPlatform exposes the platform name used for the host operating system.
+func VerifHostPlatform() string { return getCurrentPlatform() }
